@@ -332,6 +332,13 @@ func init() {
 			tup(cty.NullVal(cty.EmptyTuple), cty.NullVal(cty.Set(cty.Number))),
 			listOf(cty.List(cty.String), cty.NullVal(cty.List(cty.String)), listOf(cty.String, S("a"))),
 			tup(tup(cty.NullVal(cty.Tuple([]cty.Type{cty.Number})), N(1))),
+			// collections whose element type is a tuple type: the members are spliced although the element type is not a collection type
+			listOf(cty.Tuple([]cty.Type{cty.Number, cty.Number}), tup(N(1), N(2)), tup(N(3), N(4))),
+			listOf(cty.Tuple([]cty.Type{cty.String, cty.List(cty.String)}), tup(S("a"), listOf(cty.String, S("b"), S("c")))),
+			tup(S("x"), listOf(cty.Tuple([]cty.Type{cty.Bool}), tup(cty.True), tup(cty.False))),
+			listOf(cty.List(cty.Tuple([]cty.Type{cty.Number})), listOf(cty.Tuple([]cty.Type{cty.Number}), tup(N(5)), tup(N(6)))),
+			setOf(cty.Tuple([]cty.Type{cty.String}), tup(S("only"))),
+			listOf(cty.EmptyTuple, tup(), tup()),
 		})
 	})
 	add("keys", stdlib.KeysFunc, nil)
